@@ -35,7 +35,7 @@ func (e *verif17Env) completeTorrent() bool {
 	if c == nil || c.dispatcher.Complete() {
 		return false
 	}
-	dispatch.Verif17DeliverMissingPieces(c.dispatcher, e.arch.t.MissingPieces())
+	dispatch.Verif17DeliverMissingPieces(c.dispatcher, e.arch.t.NumPieces(), e.arch.t.MissingPieces())
 	e.noteNotices()
 	e.settle()
 	return true
